@@ -81,6 +81,8 @@ def generate(rng, i):
         # every contract quoted at every timestep, so that any action can be executed
         pf.update({"p_bar": 1.0, "p_sparse_grid": 0.0})
     env = gen_epi.gen_env(rng, pf)
+    if rng.random() < 0.25:
+        env["state"]["inherited"] = True        # observers whose callbacks are all inherited from a parent class
     ensure_nonlatent(env)
     d = Delivery(env, gen_epi.auto_disc(env))
     folds = list(env["folds"]) if env["folds"] else [None]
@@ -438,6 +440,8 @@ def execute(scenario):
             break
     if sim.faults.get("environment_construction_refused"):
         probe("environment_construction_refused")
+    if scenario["envs"][0]["state"].get("inherited"):
+        probe("observers_with_inherited_callbacks")
     if len(env_spec.get("grid_input", [])) > len(env_spec["grid"]):
         probe("duplicate_timesteps")
     if len(d.timesteps_with_events) < len(d.G):
